@@ -154,6 +154,34 @@ def observe_matches(exp, obs, to_json=None):
     return None
 
 
+def mask_now_json(text):
+    """a json payload with every header timestamp that defaulted to `datetime.now()` (i.e. lies within ten minutes of
+    now) replaced by a marker, re-serialised canonically; anything that is not json is returned as it is"""
+    import json
+    import datetime
+    if not isinstance(text, str) or not text.startswith("{"):
+        return text
+    try:
+        doc = json.loads(text)
+    except Exception:
+        return text
+    now = datetime.datetime.now()
+
+    def walk(x, key=None):
+        if isinstance(x, dict):
+            return {k: walk(v, k) for k, v in x.items()}
+        if isinstance(x, list):
+            return [walk(v, key) for v in x]
+        if key == "timestamp" and isinstance(x, str):
+            try:
+                if abs((datetime.datetime.strptime(x, "%Y%m%d%H%M%S") - now).total_seconds()) <= 600:
+                    return "<now>"
+            except Exception:
+                pass
+        return x
+    return json.dumps(walk(doc), sort_keys=True)
+
+
 def json_equal_mod_now(a, b):
     """two json payloads are equal up to a header timestamp that defaulted to `datetime.now()` at rendering
     time (records.HeaderRecord declares default=datetime.now; timestamps are never compared)"""
